@@ -24,13 +24,13 @@ func init() {
 			"R1 I1-I7: on every path, under the relevant options, the head log is fsynced after its last write before Sync / Publish(AutoSync) / Close acknowledge; the old head's log and index are fsynced before a new head exists; rewritten, recovered and migrated logs and every whole-index write are fsynced before they are renamed in / returned; only rewrite products are renamed in.",
 			"that the fsynced bytes are the right ones (C13), directory durability (excluded by the property's own fault model), the recovery side (C05/C07)."},
 		"C07": {
-			"decoders reject before they return (CRC, trailer, bounded sizes) and classify a torn header as corruption (R10a-c); the Recover/Check/reindex scans derive each index item from the record they just read at the position they read it, and compare/write exactly that slice (R11 L2, L3); a missing index is tolerated by Check/Recover (R16).",
+			"decoders reject before they return (CRC, trailer, bounded sizes) and classify a torn header as corruption (R10a-c); the Recover/Check/reindex scans derive each index item from the record they just read at the position they read it, and compare/write exactly that slice (R11 L2, L3); a missing index is tolerated by Check/Recover (R16). Check/Recover report success only behind the scan of the log (R11 L8); a decoder returns io.EOF only where the file read reported it (R10h); an index file's bytes are only ever produced by the index package (R12c).",
 			"'precisely the longest valid prefix', byte-for-byte no-op, the iff of Check."},
 		"C08": {
 			"common-guard discipline for every shared mutable field of the module (R3 lockset); acyclic lock order and no recursive read lock (R4); the unload refcount protocol (R5); re-validation of a head rewrite snapshot under the writer lock (R18); readers cannot hold a segment across its close (R20); a scan of the head segment's file outside the writer lock is bounded by a size captured under it (R21). A batch becomes visible in the in-memory index once, after all of its records are written (R11 L4); in every reading context the next-offset atomic is loaded before the state it bounds (call-level R3c); the lazy rebuild of a segment's index file runs under the reader's index lock (R16c); find-rewrite-swap of a delete is one critical section of the delete lock (R18b).",
 			"linearizability of results; Stat's allowed anomaly; races in dependencies."},
 		"C09": {
-			"a hash candidate is returned only after a byte comparison with the caller's key (R8 K1); key tree and item list grow together (R8 K2); the first-hit loops over segments and over candidates run newest-first (R8 K3); the segment walk still sees ErrKeyNotFound (R6); ErrNoIndex guard (R7c). The key cursor loads the next offset before looking the key up, so a concurrent publish is never skipped (call-level R3c); every outcome of the per-segment key lookup is classified by the loop over the segments (R35).",
+			"a hash candidate is returned only after a byte comparison with the caller's key (R8 K1); key tree and item list grow together (R8 K2); the first-hit loops over segments and over candidates run newest-first (R8 K3); the segment walk still sees ErrKeyNotFound (R6); ErrNoIndex guard (R7c). The key cursor loads the next offset before looking the key up, so a concurrent publish is never skipped (call-level R3c); every outcome of the per-segment key lookup is classified by the loop over the segments (R35). The Message a record is decoded into is fresh for every record, so a record without key never keeps the previous record's (R10i); the index objects hand on what the shared lookup computed (R36b).",
 			"that the lists are in fact ascending by offset (C01/C02); behaviour after deletes; ConsumeByKey's cursor arithmetic."},
 		"C10": {
 			"the before-start/after-end sentinels that drive the segment walk arrive unwrapped and alive, and never escape to the caller (R6, R7b); ErrNoIndex guard (R7c). Every outcome sentinel the pure time lookup can report (before start, after end, index empty) is classified inside the loop over the segments, so an empty head does not end the search (R35); no branch of the lookup depends on the wall clock (R30); the index timestamp is max(UnixMicro(time), previous) on every path (R29); message times are stored as given (R33).",
@@ -42,7 +42,7 @@ func init() {
 			"in the rewrite loop 'deleted' and 'kept' partition the records read, with 'deleted' only under membership in the caller's set (R11 L1); relative offsets rejected, empty set is a no-op before any lock (R7c); a head snapshot is re-validated before it replaces the head (R18); errSegmentChanged still reaches its comparison (R6). A Segment built for a rewrite has the directory of its source verbatim, so 'same base offset' is recognised (R34); deletes are serialised by the delete lock across find, rewrite and swap (R18b); Segment.Remove removes the log on every success path (R2 O7).",
 			"deletedSize arithmetic; the multi-pass driver; idempotence."},
 		"C13": {
-			"R9: encoder = decoder = documented layout for V1/V2 records, file headers and the four index item layouts; CRC table and coverage; Size(); key hash; R19: every version switch is exhaustive.",
+			"R9: encoder = decoder = documented layout for V1/V2 records, file headers and the four index item layouts; CRC table and coverage; Size(); key hash; R19: every version switch is exhaustive. Params.Times/Keys are Options.TimeIndex/KeyIndex wherever an index.Params is built (R39); a segment reader answers Stat from the files, in this call (R36c); index bytes are produced by the index package alone (R12c).",
 			"Stat over histories; mmap vs file reader equivalence beyond 'same decoder function'; that library codecs invert each other."},
 		"C14": {
 			"R10 (a)-(d): bounded allocation, CRC and trailer dominate every success return of a decoder, a torn header is corruption, an empty read result is never indexed.",
@@ -54,16 +54,16 @@ func init() {
 			"both compaction finders scan from OffsetOldest without gaps (R37 cursor); the key tree is keyed by a message's own Key bytes and stores that message's own Offset, and only messages tested as not after the cut-off enter it (R37 key); FindUpdates selects only what the tree gave back as the replaced holder of the same key, where the tree said a value was replaced; FindDeletes selects the current message only where its Value was tested nil (or empty) and the tree said its key was not seen before (R37 selection); wrappers and drivers as for C15 (R38).",
 			"that the latest value per key is unchanged (a statement about all keys and offsets); behaviour of the radix tree for keys that are prefixes of each other; cut-off arithmetic in Compact (time.Now() - age); everything Delete does with the set (C12)."},
 		"C17": {
-			"each version has an encoder and a decoder that agree with the layout (R9), every version switch is exhaustive (R19), the migrate loop copies every record and indexes destination positions (R11), migrates in a safe order with the temp file fsynced (R2 O2, R1 I5).",
+			"each version has an encoder and a decoder that agree with the layout (R9), every version switch is exhaustive (R19), the migrate loop copies every record and indexes destination positions (R11), migrates in a safe order with the temp file fsynced (R2 O2, R1 I5). The version kept for what is created next is the configured one handed down unchanged (R19c); whether a segment is migrated at Open depends on the options only (R19d).",
 			"which version a segment ends up in; idempotence; mixed-version behavioural equivalence."},
 		"C18": {
-			"R14: wrappers publish-then-set and wait-before-consume; the notifier's token discipline; probe under the token; broadcast closes the received channel and installs a fresh one; monotone store.",
+			"R14: wrappers publish-then-set and wait-before-consume; the notifier's token discipline; probe under the token; broadcast closes the received channel and installs a fresh one; monotone store. The parking select has only the broadcast channel and the caller's context as cases (R14d).",
 			"that a waiter stays parked when nothing happens; what a woken call returns; fairness."},
 		"C19": {
-			"lock mode per Readonly, release on failed Open and in Close (R15); Publish/Delete reject before any effect (R7c); no log-file mutator is reachable in read-only mode or from any query method (R12).",
+			"lock mode per Readonly, release on failed Open and in Close (R15); Publish/Delete reject before any effect (R7c); no log-file mutator is reachable in read-only mode or from any query method (R12). Every failing return of Open behind the deferred release hands back the variable that release tests (R15).",
 			"flock(2) semantics across handles; that a read-only handle answers like a read-write one."},
 		"C20": {
-			"'leaving the source unchanged': no source-side log-file mutator is reachable from Log.Backup / klevdb.Backup (R12).",
+			"'leaving the source unchanged': no source-side log-file mutator is reachable from Log.Backup / klevdb.Backup (R12). No level of the backup chain returns success without handing every segment to the copy (R25 b); the copy creates its target (R25 a) and skips an existing one only where the sizes were compared equal (R25 a2); a missing index does not fail the backup, and the test for it sees through the copy's error wrapping (R16).",
 			"that the copy opens to the same log (run-time)."},
 	}
 }
